@@ -146,3 +146,49 @@ class DriverCrash(Exception):
             if m:
                 frame = os.path.basename(m.group(1))
         return "%s@%s" % (kind, frame)
+
+
+def slice_function(path, start_marker):
+    """text of one C function, cut out of a source file by brace matching (used where the whole
+    translation unit cannot be compiled in this sandbox)"""
+    src = open(path, encoding="utf-8", errors="replace").read()
+    i = src.find(start_marker)
+    if i < 0:
+        raise HarnessError("%s: %r not found" % (path, start_marker))
+    j = src.index("{", i)
+    depth, k = 0, j
+    in_str = in_chr = in_lc = in_bc = False
+    while k < len(src):
+        c, n2 = src[k], src[k:k + 2]
+        if in_lc:
+            in_lc = c != "\n"
+        elif in_bc:
+            if n2 == "*/":
+                in_bc = False
+                k += 1
+        elif in_str:
+            if c == "\\":
+                k += 1
+            elif c == '"':
+                in_str = False
+        elif in_chr:
+            if c == "\\":
+                k += 1
+            elif c == "'":
+                in_chr = False
+        elif n2 == "//":
+            in_lc = True
+        elif n2 == "/*":
+            in_bc = True
+        elif c == '"':
+            in_str = True
+        elif c == "'":
+            in_chr = True
+        elif c == "{":
+            depth += 1
+        elif c == "}":
+            depth -= 1
+            if depth == 0:
+                return src[i:k + 1]
+        k += 1
+    raise HarnessError("%s: unbalanced braces after %r" % (path, start_marker))
